@@ -563,6 +563,16 @@ pub fn dispatch(op: &str, args: &[&str]) -> Option<Res> {
                 let a = p_prim(arg(args, 1)?, w)?;
                 with_prim!(ty, T, { merge(&["log2_bounds"], vec![run1(|| fbits((a as T).log2_bounds()))]) })
             }
+            // log2 bounds of primitive floats, given by bit pattern: `p.flog2b f32 <hex bits>` / `f64`
+            "p.flog2b" => {
+                let ty = arg(args, 0)?;
+                let bits = u64::from_str_radix(arg(args, 1)?, 16).map_err(|_| "bad-arg bits".to_string())?;
+                match ty {
+                    "f32" => merge(&["log2_bounds"], vec![run1(|| fbits(f32::from_bits(bits as u32).log2_bounds()))]),
+                    "f64" => merge(&["log2_bounds"], vec![run1(|| fbits(f64::from_bits(bits).log2_bounds()))]),
+                    _ => Err(format!("bad-arg type {}", ty)),
+                }
+            }
             "p.sqrtrange" | "p.cbrtrange" | "p.log2brange" => {
                 let ty = arg(args, 0)?;
                 prim_width(ty)?;
